@@ -597,17 +597,28 @@ def symbolic_returns(fn: ast.AST, max_paths: int = 256
     return out
 
 
-def symbolic_effects(fn: ast.AST, max_paths: int = 256
-                     ) -> List[Tuple[List[Tuple[ast.expr, bool]], Dict[str, ast.AST]]]:
-    """For every path ENTRY -> EXIT/return of a loop-free function: the branch tests taken and
-    the final symbolic values of everything assigned on the path -- local names and attribute
-    targets (`self.x`, keyed by their source text), with earlier assignments substituted."""
+class SymPath:
+    """One path through a loop-free function / block."""
+    __slots__ = ("conds", "env", "trace", "ret")
+
+    def __init__(self, conds, env, trace, ret):
+        self.conds = conds    # [(test with earlier assignments substituted, polarity)]
+        self.env = env        # final symbolic values: names and attribute targets by text
+        self.trace = trace    # the simple statements executed, in order (original nodes)
+        self.ret = ret        # the ast.Return that ended the path, or None (fell off the end)
+
+
+def symbolic_paths(fn: ast.AST, max_paths: int = 512) -> List[SymPath]:
+    """Every path ENTRY -> EXIT of a loop-free function with the branch tests taken, the final
+    symbolic values of everything assigned (local names and attribute targets such as `self.x`,
+    keyed by source text, earlier assignments substituted) and the statements executed.
+    Paths that leave through an exception are not reported."""
     import copy
     cfg = CFG(fn)
     for n in cfg.nodes:
         if n.kind in ("while", "for"):
-            raise AnalysisError("symbolic_effects: function has a loop")
-    out: List[Tuple[List[Tuple[ast.expr, bool]], Dict[str, ast.AST]]] = []
+            raise AnalysisError("symbolic_paths: function has a loop")
+    out: List[SymPath] = []
 
     class _S(ast.NodeTransformer):
         def __init__(self, env):
@@ -628,17 +639,21 @@ def symbolic_effects(fn: ast.AST, max_paths: int = 256
     def sub(e, env):
         return ast.fix_missing_locations(_S(env).visit(copy.deepcopy(e)))
 
-    def go(nid, env, conds, seen):
+    def go(nid, env, conds, seen, trace, ret):
         if nid in seen or nid == RAISE:
             return
         if nid == EXIT:
             if len(out) >= max_paths:
-                raise AnalysisError("symbolic_effects: too many paths")
-            out.append((conds, env))
+                raise AnalysisError("symbolic_paths: too many paths")
+            out.append(SymPath(conds, env, trace, ret))
             return
         node = cfg.nodes[nid]
         seen = seen + (nid,)
         st = node.stmt
+        if node.kind == "stmt" and st is not None:
+            trace = trace + [st]
+            if isinstance(st, ast.Return):
+                ret = st
         if node.kind == "stmt" and isinstance(st, (ast.Assign, ast.AnnAssign)) and \
                 st.value is not None:
             tgs = st.targets if isinstance(st, ast.Assign) else [st.target]
@@ -656,17 +671,20 @@ def symbolic_effects(fn: ast.AST, max_paths: int = 256
         for s_ in sorted(cfg.succ[nid]):
             lab = cfg.label.get((nid, s_))
             if node.kind == "if" and lab in ("T", "F") and node.expr is not None:
-                go(s_, env, conds + [(sub(node.expr, env), lab == "T")], seen)
+                go(s_, env, conds + [(sub(node.expr, env), lab == "T")], seen, trace, ret)
             else:
-                go(s_, env, conds, seen)
-    go(ENTRY, {}, [], ())
+                go(s_, env, conds, seen, trace, ret)
+    go(ENTRY, {}, [], (), [], None)
     return out
 
 
-def symbolic_block(stmts: List[ast.stmt], max_paths: int = 256):
-    """symbolic_returns for a statement list (e.g. the body of a loop): loop-carried variables
-    and everything defined outside stay free names. A path that falls off the end of the block
-    is reported with return node None and the final environment as a dict name -> expression."""
+def symbolic_effects(fn: ast.AST, max_paths: int = 256
+                     ) -> List[Tuple[List[Tuple[ast.expr, bool]], Dict[str, ast.AST]]]:
+    """(conds, final env) of symbolic_paths."""
+    return [(p.conds, p.env) for p in symbolic_paths(fn, max_paths)]
+
+
+def _as_block_fn(stmts: List[ast.stmt]) -> ast.FunctionDef:
     import copy
 
     class _LoopExits(ast.NodeTransformer):
@@ -686,4 +704,17 @@ def symbolic_block(stmts: List[ast.stmt], max_paths: int = 256):
                          body=list(stmts), decorator_list=[], returns=None, type_comment=None,
                          lineno=getattr(stmts[0], "lineno", 0), col_offset=0)
     ast.fix_missing_locations(fn)
-    return symbolic_returns(fn, max_paths)
+    return fn
+
+
+def symbolic_block_paths(stmts: List[ast.stmt], max_paths: int = 512) -> List[SymPath]:
+    """symbolic_paths for one iteration of a loop body (continue / break end the iteration).
+    The traces refer to copies of the statements."""
+    return symbolic_paths(_as_block_fn(stmts), max_paths)
+
+
+def symbolic_block(stmts: List[ast.stmt], max_paths: int = 256):
+    """symbolic_returns for a statement list (e.g. the body of a loop): loop-carried variables
+    and everything defined outside stay free names; `continue` / `break` of the enclosing loop
+    appear as bare returns."""
+    return symbolic_returns(_as_block_fn(stmts), max_paths)
